@@ -232,6 +232,36 @@ def fam_tall_holes(rng, kind, quick):
     return B.p
 
 
+def fam_chamfer(rng, kind, quick):
+    """a plate made of long lines with one very short chamfer (shorter than 0.6 % of the mean line length, the
+    threshold below which the mesher adds no smart-mesh corner points) and a tiny step; the short lines may
+    carry a spacing of their own, finer than their length"""
+    B = Builder(kind); ids = base_props(B, kind, rng); settings(B, rng, quick)
+    W = rng.choice([10.0, 8.0])
+    c = rng.choice([0.005, 0.01, 0.015]) * W / 10        # chamfer length c*sqrt(2) < 3 * (mean line length) / 500
+    st = rng.choice([0.01, 0.02]) * W / 10
+    d = mesh_diameter(W * W / (60 if quick else 600))
+    P = [(0.0, 0.0), (W, 0.0), (W, W - c), (W - c, W), (W / 2 + st, W), (W / 2 + st, W - st), (W / 2, W - st), (W / 2, W), (0.0, W)]
+    ids_p = [B.point(x, y) for (x, y) in P]
+    import math
+    short_spacing = rng.choice(["fine", "fine", "none"])
+    for i in range(len(P)):
+        a, b = ids_p[i], ids_p[(i + 1) % len(P)]
+        L = math.hypot(P[i][0] - P[(i + 1) % len(P)][0], P[i][1] - P[(i + 1) % len(P)][1])
+        kw = dict(bdry=ids["bdry"][i % 2])
+        if L < W / 50:
+            if short_spacing == "fine":
+                kw["maxside"] = L / rng.choice([3.5, 4.2, 2.5])
+        elif i == 0:
+            kw["maxside"] = 0.7 * W / 10
+        elif i == 1:
+            kw["maxside"] = W / 3
+        B.seg(a, b, **kw)
+    B.label(W * 0.3, W * 0.3, ids["mats"][0], maxarea=d)
+    B.p["features"] = ["chamfer", kind, "short-" + short_spacing, "c%g" % c, "minangle%g" % B.p["minangle"], "smart%d" % B.p["dosmartmesh"]]
+    return B.p
+
+
 FAMS = [fam_rect, fam_circle_in_square, fam_nested_polygons, fam_annulus, fam_rounded, fam_periodic_arcs, fam_periodic_lines, fam_tall_holes]
 KINDS = ["fee", "feh", "fem"]
 
